@@ -252,8 +252,14 @@ def conf_items(tier):
 SEG_SIZES = [1, 15, 16, 17, 100, 300]
 
 
+SEG_SUITES = [('aes128-ctr', 'hmac-sha2-256', 'none'), ('aes128-ctr', 'hmac-sha2-256-etm@openssh.com', 'none'),
+              ('aes128-gcm@openssh.com', None, 'none'), ('chacha20-poly1305@openssh.com', None, 'none'),
+              ('aes128-cbc', 'hmac-sha1', 'none'), ('3des-cbc', 'hmac-sha2-512', 'zlib@openssh.com'),
+              ('aes256-ctr', 'umac-64@openssh.com', 'zlib')]
+
+
 class SegWorld:
-    def __init__(self, seed=0):
+    def __init__(self, seed=0, suite=0):
         self.loop = P.fresh(seed)
         P.install_wire_labels()
         sizes = SEG_SIZES
@@ -270,8 +276,11 @@ class SegWorld:
                 self.chan.exit(5)
                 return True
         self.env = {'session_factory': lambda: Srv('srv', on_start=on_start)}
-        self.pair = P.Pair(self.loop, sopts=dict(encoding=None), env=self.env,
-                           copts=dict(encryption_algs=['aes128-ctr'], mac_algs=['hmac-sha2-256']))
+        enc, mac, comp = SEG_SUITES[suite]
+        algs = dict(encryption_algs=[enc], compression_algs=[comp])
+        if mac:
+            algs['mac_algs'] = [mac]
+        self.pair = P.Pair(self.loop, sopts=dict(encoding=None, **algs), env=self.env, copts=algs)
         self.off = {'cs': 0, 'sc': 0}       # stream offsets delivered so far
         self.connect_exc = None
 
@@ -358,7 +367,7 @@ class SegWorld:
         P.done(self.loop)
 
 
-def seg_run(policy_desc, seed=0):
+def seg_run(policy_desc, seed=0, suite=0):
     kind = policy_desc[0]
     if kind == 'whole':
         pol = lambda d, off, avail: avail
@@ -378,7 +387,7 @@ def seg_run(policy_desc, seed=0):
             return avail
     else:
         raise ValueError(policy_desc)
-    w = SegWorld(seed)
+    w = SegWorld(seed, suite)
     try:
         obs = w.run(pol)
         bounds = {d: [sum(len(c) for c in t.writes[:i + 1]) for i in range(len(t.writes))]
@@ -395,21 +404,22 @@ def _strip(obs):
 
 
 def seg_worker(job):
-    base, descs = job
+    base, descs = job[:2]
+    suite = job[2] if len(job) > 2 else 0
     acc = core.Acc()
     for desc in descs:
         try:
-            obs, _ = seg_run(desc)
+            obs, _ = seg_run(desc, suite=suite)
         except Livelock as exc:
             acc.add(core.digest(('livelock', desc)))
             acc.violation('segmentation:livelock', str(exc), {'kind': 'seg', 'policy': desc})
             continue
-        acc.add(core.digest(desc), transitions=obs['stream_len']['chunks'])
+        acc.add(core.digest((suite, desc)), transitions=obs['stream_len']['chunks'])
         if _strip(obs) != base:
             diff = {k: (v, base[k]) for k, v in _strip(obs).items() if v != base[k]}
-            acc.violation('segmentation:%s' % (desc[0],),
+            acc.violation('segmentation:%s:%s' % (desc[0], '/'.join(str(x) for x in SEG_SUITES[suite])),
                           'policy %r changed the observation: %s' % (desc, repr(diff)[:500]),
-                          {'kind': 'seg', 'policy': desc})
+                          {'kind': 'seg', 'policy': desc, 'suite': suite})
     return acc
 
 
@@ -554,6 +564,18 @@ def main(tier, seed):
     descs = seg_policies(tier, bounds)
     chunks = [descs[i::64] for i in range(64)]
     acc.merge(core.pmap(seg_worker, [(_strip(base1), c) for c in core.rotate(chunks, seed)]))
+    # the other packet layouts (length field in the clear / encrypted with its own key / in the first cipher
+    # block; tag or MAC; compression): every uniform chunk size and every single split point (thorough: pairs too)
+    for si in range(1, len(SEG_SUITES)):
+        b_s, bounds_s = seg_run(('whole',), seed, si)
+        if not b_s['task_done'] or b_s['loop_exc']:
+            print('HARNESS-ERROR: segmentation baseline for %r did not complete: %r' % (SEG_SUITES[si], b_s))
+            return 2
+        d_s = seg_policies(tier, bounds_s)
+        if tier == 'quick':
+            d_s = [d for d in d_s if d[0] == 'uniform' or len(d[2]) == 1]
+        ch_s = [d_s[i::32] for i in range(32)]
+        acc.merge(core.pmap(seg_worker, [(_strip(b_s), c, si) for c in core.rotate(ch_s, seed)]))
     n_seg = acc.evaluations - n_conf
     it = interop_items(tier)
     acc.merge(core.pmap(interop_worker, core.rotate(it, seed), procs=8))
@@ -566,7 +588,8 @@ def main(tier, seed):
             'sequence numbers, padding >= 4, block alignment, exact payload sequence, then a key re-exchange '
             'in mid-session and both directions again; (b) every '
             'single split point of both byte streams of a full real<->real session, uniform chunk '
-            'sizes 1..67, pairs of split points around packet headers; observation must equal the '
+            'sizes 1..67, pairs of split points around packet headers, for 7 packet layouts (CTR+MAC, EtM, GCM, '
+            'chacha20-poly1305, CBC, with compression; pairs for the first layout only in quick); observation must equal the '
             'unsegmented run; (c) /usr/bin/ssh against an asyncssh server.  Distinct = distinct '
             'configuration / segmentation policy')
     return core.finish(PROP, tier, seed, 'model_checking', acc, t0, rule,
@@ -593,7 +616,8 @@ def replay(rep):
         base, _ = seg_run(('whole',))
         pol = r['policy']
         pol = (pol[0], pol[1]) if pol[0] == 'uniform' else (pol[0], pol[1], pol[2])
-        acc = seg_worker((_strip(base), [pol]))
+        base, _ = seg_run(('whole',), suite=r.get('suite', 0))
+        acc = seg_worker((_strip(base), [pol], r.get('suite', 0)))
     print(json.dumps(acc.violations, indent=1, default=repr))
     if acc.violations:
         print('VIOLATION property=%s replay=(given)' % PROP)
